@@ -236,7 +236,8 @@ def _gibbs(ctx, rbm, nv, nh, na, cond_h, cond_v, cond_a):
                               all(st._obj(s0)[b, i].const_value() == cur[b][i] for b in range(B) for i in range(nv)))
                 else:
                     ctx.holds("gibbs_steps/overwrite=False-leaves-caller-tensor-untouched" + tag,
-                              not isinstance(s0, st.SymTensor) and torch.equal(s0, keep) and out is not s0)
+                              not isinstance(s0, st.SymTensor) and torch.equal(s0, keep) and out is not s0
+                              and not (isinstance(out, st.SymTensor) and out._stor.twin is s0))      # x.to(same dtype / device) is x itself
                 # chains continued across calls: results handed out earlier are never touched again
                 cur_vals = [[st._obj(out)[b, i].const_value() for i in range(nv)] for b in range(B)]
                 fresh = all((o is not out) and not (isinstance(o, st.SymTensor) and isinstance(out, st.SymTensor) and o._stor is out._stor) for o, _s in earlier)
